@@ -160,6 +160,13 @@ def run_property(prop, tier="quick", F=None, quiet=False, write=True):
         floor_fail = "instances evaluated %d < floor %d or missing required %s" % (evaluated, floor, sorted(required - ids))
     out_lines = []
     if not write:
+        if os.environ.get("SNELCHECK_NO_WRITE"):
+            for inst in violations:
+                print("VIOLATION property=%s replay=(scratch run, nothing written)" % prop)
+                print("  %s [%s] %s: %s" % (inst.id, inst.kind, inst.container, inst.detail.splitlines()[0] if inst.detail else ""))
+            if floor_fail:
+                print("VIOLATION property=%s replay=(scratch run) %s" % (prop, floor_fail))
+            print("%s: %d instances, %d violations (scratch)" % (prop, len(ctx.instances), len(violations)))
         return 1 if (violations or floor_fail) else 0, ctx
     os.makedirs(os.path.join(VERIF, "reports"), exist_ok=True)
     os.makedirs(os.path.join(VERIF, "evidence"), exist_ok=True)
@@ -240,6 +247,11 @@ def main(argv):
             verbose = True
             i += 1
             continue
+        if a == "--scratch":
+            # development aid (tools/try_seeded.sh): evaluate a temporarily patched tree without rewriting evidence/ and reports/
+            os.environ["SNELCHECK_NO_WRITE"] = "1"
+            i += 1
+            continue
         args.append(a)
         i += 1
     cmd = args[0]
@@ -262,7 +274,7 @@ def main(argv):
             print("no rules for", p)
             rc = 2
             continue
-        r, ctx = run_property(p, tier, F)
+        r, ctx = run_property(p, tier, F, write=not os.environ.get("SNELCHECK_NO_WRITE"))
         if verbose:
             for inst in ctx.instances:
                 print("  %-8s %-6s %-9s %s :: %s" % (inst.id, inst.kind, inst.verdict, inst.container, (inst.detail or "")[:300]))
